@@ -53,6 +53,15 @@ CLAIMED = {
              "representations, rate mods with custom speed vs clock_rate, DifficultyAdjust vs overrides (difficulty, strains, "
              "performance).",
         tech="Coq proof over translator-generated accessor tables + bitwise representation differential"),
+    "C17": dict(
+        text="Coq float model of BeatmapAttributesBuilder::{hit_windows, build} (f64 on the kernel's floats, f32 steps via "
+             "SpecFloat rounding), tied BIT-EXACTLY to the real builder on every run; theorems: build() and hit_windows() agree "
+             "(float model, structural); over the exact twin (Q): round trip of values supplied with with_mods=true for every "
+             "mod/clock rate (AR; OD osu!/taiko; CS; HP up to its cap), every window antitone in the value, inverse clock-rate "
+             "scaling, HR/EZ ordering on [0,10]. The twin's agreement with the float model is validated numerically in Coq "
+             "(1e-6), not proved; mania's rate-compensated window is excluded from the monotonicity/scaling theorems. Agreement "
+             "of osu!/taiko/catch difficulty attributes with the builder is checked bitwise on real calculations.",
+        tech="bit-exact Coq float model + Q-twin proofs (lra) + direct oracles"),
     "C18": dict(
         text="Coq theorems: for every sequence of setter calls, mode and starting Difficulty, Performance setters (interpreted "
              "through the dispatch tables REGENERATED from the source on every run) leave exactly the Difficulty that the same "
